@@ -184,7 +184,7 @@ def dumpModel (m : ModelS Q) : String :=
     "jt " ++ " ".intercalate (m.joints.map (fun j => toString j.jt.code)),
     "jdof " ++ " ".intercalate (m.joints.map (fun j => toString j.dof)),
     "jq " ++ " ".intercalate (m.joints.map (fun j => toString j.qIndex)),
-    "jc " ++ " ".intercalate (m.joints.map (fun j => toString j.customIdx)),
+    "jc " ++ " ".intercalate (m.joints.map (fun j => if j.jt = .custom then toString j.customIdx else "-")),
     "w3 " ++ " ".intercalate (m.w3Index.map toString),
     "ncustom " ++ toString m.customJoints.length,
     "virt " ++ " ".intercalate (m.bodies.map (fun b => showBool b.isVirtual)),
@@ -268,6 +268,22 @@ def doCall (d : DS) (t : Toks) : DS × String :=
     if d.impl.isEmpty then r else
     let sst : Spec.State Q := { d.specState with qdd := vecOfList (implVec d) }
     also (also r d "FDL.lhs" (showList (Spec.newtonEulerTau d.specModel sst d.fextFn))) d "FDL.rhs" (showVec d.tau nd)
+  | "LTL" =>
+    -- factorisation needs square roots: certificate mode (L^T L = H, H x = tau)
+    let r := out d name (" ".intercalate d.impl)
+    if d.impl.isEmpty then r else
+    let v := implVec d
+    let L := fun (i j : Nat) => if j ≤ i then v.getD (i * nd + j) 0 else 0
+    let x := fun (i : Nat) => v.getD (nd * nd + i) 0
+    let Hs := Spec.inertiaMatrix d.specModel d.specState
+    let LtL := (List.range nd).flatMap (fun i => (List.range nd).map (fun j =>
+      (List.range nd).foldl (fun acc k => acc + L k i * L k j) 0))
+    let Hx := (List.range nd).map (fun i => (List.range nd).foldl (fun acc j => acc + Hs.getD (i * nd + j) 0 * x j) 0)
+    let upper := (List.range nd).flatMap (fun i => (List.range nd).filterMap (fun j =>
+      if i < j then some (v.getD (i * nd + j) 0) else none))
+    also (also (also (also (also (also r d "LTL.lhs" (showList LtL)) d "LTL.rhs" (showList Hs))
+      d "LTLx.lhs" (showList Hx)) d "LTLx.rhs" (showVec d.tau nd))
+      d "LTLu.lhs" (showList upper)) d "LTLu.rhs" (showList (upper.map (fun _ => 0)))
   | "CRBA" =>
     let (u, _) := t.nat
     let (w, H) := crba m d.w d.st (fun _ _ => 0) (u ≠ 0)
@@ -423,7 +439,9 @@ def step (d : DS) (line : String) : DS × Option String :=
       let r := match js with
         | .joint j => d.m.addBody parent X j b nm
         | .custom k => d.m.addBodyCustomJoint parent X k b nm
+      let okRes := match r.2 with | .ok _ => true | .error _ => false
       let (d, s) := afterAdd d r cmd
+      if !okRes then (d, some s) else
       let (sb', _) := d.sb.add parent X.E X.r jd b.mass b.com b.inertia
       ({ d with sb := sb' }, some s)
     | "setmass" =>
